@@ -4,7 +4,7 @@
    INDEXOVERFLOW_MARGIN, CHAINLOG_MAX, WINDOWLOG_MAX, ...) are regenerated from the current headers. *)
 From Coq Require Import ZArith List Bool.
 From ZV.Index Require Import Window Reduce Overflow History
-     OverflowProofs ReduceProofs CorrectProofs WindowProofs HistoryProofs.
+     OverflowProofs ReduceProofs CorrectProofs WindowProofs HistoryProofs TableProofs.
 Import ListNotations.
 Local Open Scope Z_scope.
 
@@ -300,3 +300,83 @@ Theorem ldm_tiny_blocks_unchecked :
     h_ldm (frame_blocks freq h ip blocks) = Some l.
 Proof. exact ldm_tiny_blocks_unchecked_lemma. Qed.
 Print Assumptions ldm_tiny_blocks_unchecked.
+
+(* 15. a rebased table cell never designates another position: it becomes 0 (invalid), stays the preserved
+   unsorted mark, or is the old index minus the correction, which with base' = base + correction is the SAME
+   address (b, b' are the window bases before / after; the same holds for dictBase) *)
+Theorem reduced_entry_same_position_or_invalid :
+  forall r pm e (b b' : Z),
+    0 <= e < two32 -> 0 <= r -> r + START < two32 -> b' = b + r ->
+    let e' := reduce_cell r pm e in
+    e' = 0 \/ (pm = true /\ e = DUBT_UNSORTED_MARK /\ e' = DUBT_UNSORTED_MARK) \/
+    (START <= e' /\ e' = e - r /\ b' + e' = b + e).
+Proof. exact reduce_cell_never_moves_lemma. Qed.
+Print Assumptions reduced_entry_same_position_or_invalid.
+
+Theorem ldm_reduced_entry_same_position_or_invalid :
+  forall r e (b b' : Z),
+    0 <= e < two32 -> 0 <= r -> b' = b + r ->
+    let e' := ldm_reduce_cell r e in
+    e' = 0 \/ (e' = e - r /\ b' + e' = b + e).
+Proof. exact ldm_reduce_cell_never_moves_lemma. Qed.
+Print Assumptions ldm_reduced_entry_same_position_or_invalid.
+
+(* 16. no stored index is ever "in the future": for every history (same operations as in 12, in either build)
+   in which the tables have the sizes of the parameters in force when a correction can run, the match finder
+   only stores positions at or below the current index, a CDict is attached to an empty window and copied over
+   cleared tables (op_okT: what the library does at those points), every cell of hashTable / chainTable /
+   hashTable3 and nextToUpdate stay at or below the current index nextSrc - base - through every window
+   update, index reset, dictionary load, rebasing and btultra2 first pass.  A table that misses a rebasing
+   breaks exactly this. *)
+Theorem tables_stay_below_current :
+  forall freq ops h,
+    Inv h -> TInv h -> Forall op_ok ops -> hist_okT freq h ops -> TInv (run freq h ops).
+Proof. exact tables_stay_below_current_lemma. Qed.
+Print Assumptions tables_stay_below_current.
+
+Theorem new_context_tables_invariant : forall p, TInv (h_init p).
+Proof. exact TInv_init. Qed.
+Print Assumptions new_context_tables_invariant.
+
+Theorem tables_invariant_meaning :
+  forall h, TInv h ->
+  let ms := h_ms h in
+  let c := nextSrc (ms_window ms) - base (ms_window ms) in
+  (forall e, In e (hashTable (ms_tables ms)) \/ In e (chainTable (ms_tables ms)) \/ In e (hashTable3 (ms_tables ms)) ->
+             0 <= e <= c) /\
+  0 <= ms_nextToUpdate ms <= c.
+Proof. exact TInv_meaning. Qed.
+Print Assumptions tables_invariant_meaning.
+
+(* one ZSTD_overflowCorrectIfNeeded keeps the cells and nextToUpdate at or below the index of ip *)
+Theorem overflow_correction_keeps_tables_below :
+  forall freq ms p ip iend q B,
+    cparams_ok p ->
+    let w := ms_window ms in
+    0 <= lowLimit w -> lowLimit w <= dictLimit w -> dictLimit w <= ip - base w -> ip - base w <= B ->
+    0 <= nbOvf w < two32 -> ip <= q -> 0 <= ms_loadedDictEnd ms <= q - base w ->
+    ip <= iend -> iend - base w < two32 ->
+    let cl := cycleLog_of (p_chainLog p) (p_strategy p) in
+    let wl := p_windowLog p in
+    (minIndexToOverflowCorrect cl wl + (iend - ip) <= CURRENT_MAX + 1 \/ iend - ip <= CHUNKSIZE_MAX \/
+     iend - base w <= CURRENT_MAX) ->
+    tables_sized p (ms_hashLog3 ms) (ms_dds ms) (ms_tables ms) ->
+    tables_le (ip - base w) (ms_tables ms) -> 0 <= ms_nextToUpdate ms <= ip - base w ->
+    let ms' := fst (overflowCorrectIfNeeded freq ms p ip iend) in
+    let w' := ms_window ms' in
+    tables_le (ip - base w') (ms_tables ms') /\ 0 <= ms_nextToUpdate ms' <= ip - base w' /\
+    tables_sized p (ms_hashLog3 ms') (ms_dds ms') (ms_tables ms') /\
+    ms_hashLog3 ms' = ms_hashLog3 ms /\ ms_dds ms' = ms_dds ms.
+Proof. exact ovf_tables. Qed.
+Print Assumptions overflow_correction_keeps_tables_below.
+
+(* 17. the LDM hash table, chunk steps interleaved with whatever the long-distance matcher stores (a cell is
+   left alone or receives a position of the data seen so far): no cell above the LDM window's current index *)
+Theorem ldm_table_stays_below_current :
+  forall freq wl steps s p,
+    0 <= wl <= WINDOWLOG_MAX -> ldm_inv s p -> tbl_le (p - base (ldm_window s)) (ldm_table s) ->
+    ldm_steps_ok freq s wl p steps ->
+    let s' := ldm_run_f freq s wl p steps in
+    ldm_inv s' (p + sum_fst steps) /\ tbl_le (p + sum_fst steps - base (ldm_window s')) (ldm_table s').
+Proof. exact ldm_table_stays_below_current_lemma. Qed.
+Print Assumptions ldm_table_stays_below_current.
